@@ -21,6 +21,7 @@ func init() {
 			c.run("C11-R6", "PAIR: a channel is closed only by its sending side", c11R6)
 			c.run("C11-R9", "MUST-PASS: a stage returns only after cancelling, on a cancelled context, or when its work is complete", c11StageExits)
 			c.run("C11-R10", "PAIR: size-probing hand-shake — initial size, cancellable wait, token released on every init-phase ack", c11BufInit)
+			c.run("C11-R11", "CONTRADICTION: no loop whose only exit test is loop-invariant", c11LoopProgress)
 			c.run("C11-R8", "PAIR: every mutex acquired is released on every path out of the function", c11Mutex)
 			c.run("C11-R7", "GUARD-DOM (shared with C02-7): a source that ends before its announced length is an error, not a silent wait or spin", c02ShortSource)
 		})
